@@ -25,6 +25,9 @@ pub struct WriteAheadLog {
     flush_queue: VecDeque<WalBlock>,
     file: DBFile,
     block_size: usize,
+    /// Index in the file at which the oldest block that is not yet final on disk (the front of
+    /// the flush queue, or else the current block) has to be written. Block zero is index 0.
+    next_block_index: u64,
 }
 
 impl FileOperations for WriteAheadLog {
@@ -40,6 +43,7 @@ impl FileOperations for WriteAheadLog {
             flush_queue: VecDeque::new(),
             file,
             block_size,
+            next_block_index: 1,
         })
     }
 
@@ -61,12 +65,16 @@ impl FileOperations for WriteAheadLog {
             block_size
         };
 
+        // Blocks already on disk are final: new records go to a fresh block after them.
+        let next_block_index = header_buf.metadata().wal_header.total_blocks.max(1);
+
         Ok(Self {
             header: header_buf,
             current_block: None, // If needed, will be allocated on push.
             flush_queue: VecDeque::new(),
             file,
             block_size,
+            next_block_index,
         })
     }
 
@@ -83,6 +91,7 @@ impl FileOperations for WriteAheadLog {
         self.header = BlockZero::alloc(0, self.block_size);
         self.current_block = None;
         self.flush_queue.clear();
+        self.next_block_index = 1;
         Ok(())
     }
 }
@@ -302,14 +311,18 @@ impl WriteAheadLog {
         self.header.metadata_mut().wal_header.global_last_lsn = Some(lsn);
         self.header.metadata_mut().wal_header.total_entries += 1;
 
-        // Try to write to block zero first
+        // Try to write to block zero first (only while no later block exists, to keep log order)
         if self.current_block.is_none() {
-            if self.header.available_space() >= record_size {
+            if self.next_block_index == 1
+                && self.flush_queue.is_empty()
+                && self.header.available_space() >= record_size
+            {
                 self.header.try_push(lsn, record)?;
                 return Ok(());
             }
             // Block zero is full, create first current_block
-            self.current_block = Some(WalBlock::new(self.block_size));
+            let id = self.next_block_index + self.flush_queue.len() as u64;
+            self.current_block = Some(WalBlock::alloc(id, self.block_size));
         }
 
         // Write to current_block
@@ -350,43 +363,41 @@ impl WriteAheadLog {
         if let Some(full_block) = self.current_block.take() {
             self.flush_queue.push_back(full_block);
         }
-        let next_id = self.get_next_block();
+        let next_id = self.next_block_index + self.flush_queue.len() as u64;
         self.current_block = Some(WalBlock::alloc(next_id, self.block_size));
         Ok(())
     }
 
     pub fn perform_flush(&mut self) -> io::Result<()> {
-        // Block 0 always exists, additional blocks start at index 1
-        let mut block_number: u64 = 1;
-        let mut write_offset = self.block_size as u64;
+        // Block 0 always exists, additional blocks start at index 1.
+        // Full blocks are written once, after the blocks flushed earlier; they are final.
+        let mut block_number: u64 = self.next_block_index;
 
         // Flush queued blocks
         while let Some(block) = self.flush_queue.pop_front() {
-            self.file.seek(SeekFrom::Start(write_offset))?;
+            self.file
+                .seek(SeekFrom::Start(block_number * self.block_size as u64))?;
             self.file.write_all(block.as_ref())?;
             block_number += 1;
-            write_offset += self.block_size as u64;
         }
+        self.next_block_index = block_number;
 
-        // Flush current block if it has data
+        // Flush current block if it has data. It stays current (later records keep filling it)
+        // and is rewritten in place by the next flush.
+        let mut last_block_used = self.header.metadata().block_header.used_bytes as u32;
         if let Some(ref block) = self.current_block {
             if block.metadata().used_bytes > 0 {
-                self.file.seek(SeekFrom::Start(write_offset))?;
+                self.file
+                    .seek(SeekFrom::Start(block_number * self.block_size as u64))?;
                 self.file.write_all(block.as_ref())?;
                 block_number += 1;
+                last_block_used = block.metadata().used_bytes as u32;
             }
         }
 
         // Update header metadata
         self.header.metadata_mut().wal_header.total_blocks = block_number;
-
-        if let Some(block) = self.current_block.take() {
-            self.header.metadata_mut().wal_header.last_block_used =
-                block.metadata().used_bytes as u32;
-        } else {
-            self.header.metadata_mut().wal_header.last_block_used =
-                self.header.metadata().block_header.used_bytes as u32;
-        }
+        self.header.metadata_mut().wal_header.last_block_used = last_block_used;
 
         // Write block zero (siempre al principio)
         self.file.seek(SeekFrom::Start(0))?;
